@@ -44,6 +44,9 @@ type rRound struct {
 	// Slow: the packets of the response arrive spread over 8 simulated seconds (longer than the packet read
 	// timeout of 5 s in total, shorter than the consumer's own deadline).
 	Slow bool `json:"slow,omitempty"`
+	// PauseAt > 0: the consumer pauses for six simulated seconds (longer than the packet read timeout) when it has
+	// seen that many packages; with a small package queue the reader then waits on the full queue that long.
+	PauseAt int `json:"pause_at,omitempty"`
 	// NoPause (C03 plans): the next request is sent as soon as the consumer has the final DONE, while the reader
 	// may still be busy with the end of this response (its last packet's bookkeeping, invisible packages after
 	// the final DONE).
@@ -196,7 +199,7 @@ func genRounds(r *Rand, nRounds int, eedPct, envPct int, hooks bool) []rRound {
 					case 2:
 						ms = append(ms, fmt.Sprintf("3:cs%d:iso_1", next()))
 					default:
-						ms = append(ms, fmt.Sprintf("4:%d:512", Pick(r, []int{512, 1024, 2048, 4096, 8192})))
+						ms = append(ms, fmt.Sprintf("4:%d:512", Pick(r, []int{512, 1024, 2048, 4096, 8192, 16384, 32767, 32768, 40960, 65024, 65535})))
 					}
 				}
 				items = append(items, rItem{K: "env", Env: ms})
@@ -269,6 +272,9 @@ func genRounds(r *Rand, nRounds int, eedPct, envPct int, hooks bool) []rRound {
 		rd.Poll = rd.Mode != "manual" && r.Pct(25)
 		rd.ErrEOF = rd.Mode == "until-err" && r.Pct(30)
 		rd.Slow = !rd.Poll && r.Pct(8)
+		if !rd.Slow && !rd.Poll && r.Pct(8) {
+			rd.PauseAt = 1 + r.Intn(3)
+		}
 		rd.NoPause = !hooks && !rd.Slow && !rd.Poll && r.Pct(50)
 		if hooks {
 			if ri == 0 {
@@ -512,6 +518,9 @@ func runRounds(p *roundsPlan, schedSeed uint64, replay []simrt.Choice, lenient, 
 			see := func(pkg tds.Package) {
 				ro.seen = append(ro.seen, describePkg(pkg))
 				ro.seenSeq = append(ro.seenSeq, simrt.Record("seen", "", "", int64(ri)))
+				if rd.PauseAt > 0 && len(ro.seen) == rd.PauseAt {
+					simrt.Sleep(6 * time.Second)
+				}
 			}
 			isFinal := func(pkg tds.Package) bool {
 				d, ok := pkg.(*tds.DonePackage)
